@@ -34,7 +34,7 @@ LEVEL_TEXT = (
 LEVEL_NOTE = "Trusted: Python float modulo (exact on the lattice), fractions for the width/representability decision off-lattice."
 TECHNIQUE = "runtime postcondition monitor with an exact modular-arithmetic oracle plus verde.inside applied to the returned values; exhaustive 5-degree lattice + seeded off-lattice and rejection workload"
 FLOORS = {
-    "quick": {"eval:region": 8000, "eval:longitudes": 8000, "eval:inside": 8000, "eval:rejection": 300, "distinct_nontrivial": 2500, "eval:forms": 40},
+    "quick": {"eval:region": 12000, "eval:longitudes": 12000, "eval:inside": 12000, "eval:rejection": 300, "distinct_nontrivial": 2500, "eval:forms": 40, "class:longitude_subset_calls": 8000, "class:mixed_dtype_coordinates": 40},
     "thorough": {"eval:region": 40000, "eval:longitudes": 40000, "eval:inside": 40000, "eval:rejection": 3000, "distinct_nontrivial": 20000},
 }
 JOBS = {"quick": 1, "thorough": 16}
@@ -222,8 +222,19 @@ def run_case(run, tap, stream, index, rng):
                 continue
             s, n = (-90.0, 90.0) if (done % 3 == 0) else (-20.0, 35.0)
             region = [w, e, s, n] if done % 2 else [int(w) if shift == 0 else w, int(e) if shift == 0 else e, int(s), int(n)]
+            # the container of the longitudes varies: float64, integer longitudes with fractional latitudes, float32 longitudes
+            lon_arg = lons if done % 4 else (lons.astype("int64") if shift == 0 else lons.astype("float32"))
             try:
-                vd.longitude_continuity([lons, lats], region)
+                vd.longitude_continuity([lon_arg, lats], region)
+                # what happens to one longitude must not depend on which other longitudes are in the same array:
+                # only non-negative values, only values <= 180, and (for some pairs) the seam values alone
+                subsets = [lons >= 0, lons <= 180]
+                if e0 % 15 == 0:
+                    subsets += [lons == 360, lons == 180, lons == -180, lons == 0, (lons == 0) | (lons == 360)]
+                for mask in subsets:
+                    if mask.any():
+                        vd.longitude_continuity([lons[mask], lats[mask], lats[mask] * 0.5 + 0.25], region)
+                        run.count("class:longitude_subset_calls")
             except ValueError:
                 run.count("raised_on_lattice")
             done += 1
@@ -317,6 +328,10 @@ def run_case(run, tap, stream, index, rng):
             height = np.full(lon2d.shape, 1234.5)
             c3, r3 = vd.longitude_continuity([lon2d, lat2d, height], region)
             ci, ri = vd.longitude_continuity([lon2d.astype("int64"), lat2d.astype("int64")], [int(v) for v in region])
+            frac_lat = lat2d + 0.37
+            cm, rm = vd.longitude_continuity([lon2d.astype("int64"), frac_lat, height + 0.5], region)  # integer longitudes, fractional others
+            c32, r32 = vd.longitude_continuity([lon2d.astype("float32"), frac_lat * (1 + 1e-9)], region)
+            run.count("class:mixed_dtype_coordinates", 2)
             cf, rf = vd.longitude_continuity((np.asfortranarray(lon2d), np.ascontiguousarray(lat2d.T).T), tuple(region))
             if not (np.array_equal(cf[0], c2d[0]) and np.array_equal(np.asarray(rf, dtype=float), np.asarray(r2d, dtype=float))):
                 run.violation("forms", "the result depends on the memory layout of the coordinate arrays", {"region": region}, key="forms-layout")
